@@ -91,15 +91,22 @@ def judge_answer(st, ans, sig, logic, decls, blk):
     ite_any = any(cc.has_nonbool_ite(b, sig) for b in allb)
     # a current assertion whose term was asserted again later (the partition map then holds the later index only); with the
     # trace: additionally a leaf mask bit that no partition carries
-    twice = (ev is None or ev["lost_bits"]) and cc.reasserted_later(st, logic, decls)
+    _tw = []
 
+    def twice():      # lazily: refers undecided pairs to z3
+        if not _tw:
+            _tw.append((ev is None or ev["lost_bits"]) and cc.reasserted_later(st, logic, decls))
+        return _tw[0]
+
+    rewritten = cc.rewritten_form_is_another_assertion(st)
     if ev is not None and ev["stale"]:
-        rec["viol"].append(("core-term-not-current:%s" % ("stale-refutation-after-pop" if st.unsat_frames_gone else "plain"),
+        rec["viol"].append(("core-term-not-current:%s" % ("rewritten-form-is-another-assertion" if rewritten else
+                                                         "stale-refutation-after-pop" if st.unsat_frames_gone else "plain"),
                             "the builder's extracted set contains a top-level formula that is not among the solver's current assertions (traced: core-all vs core-current)",
                             dict(core_all=blk.all, core_current=blk.current)))
 
     def cause_sat():
-        return "stale-refutation-after-pop" if stale else "term-asserted-twice" if twice else \
+        return "rewritten-form-is-another-assertion" if rewritten else "stale-refutation-after-pop" if stale else "term-asserted-twice" if twice() else \
             "named-assertion-with-nonbool-ite" if (ite_named and not full) else "plain"
     if not full:
         if not all(isinstance(n, str) for n in ans):
